@@ -321,7 +321,7 @@ def _job(job):
         for _ in range(len(fsrc) + 1):
             rest = []
             for f in pending:
-                cp = subprocess.run(["gfortran", "-cpp", "-ffree-form", "-w", "-c", f, "-I", outd], cwd=outd,
+                cp = subprocess.run(["gfortran", "-cpp", "-ffree-form", "-c", f, "-I", outd], cwd=outd,
                                     capture_output=True, text=True, timeout=300)
                 if cp.returncode != 0:
                     rest.append((f, cp.stderr))
